@@ -216,11 +216,14 @@ def rule_statics(F, R):
                             a0 = skip(var["c"][0]) if var is not None and var.get("c") else a0
                         if a0["k"] == "lambda":
                             lam_ids.add(a0.get("lid"))
-                outside = [pp(site)[:50] for tgt, kind, site in writes_in(f, f.body) if pp(tgt).startswith(g["qn"].split("::")[-1])]
+                vname = g["qn"].split("::")[-1]
+                vn = [v for v in f.nodes() if v["k"] == "var" and v.get("n0", v.get("n")) == vname]
+                vname = vn[0]["n"] if vn else vname           # the name it is printed under (canonical local names)
+                outside = [pp(site)[:50] for tgt, kind, site in writes_in(f, f.body) if pp(tgt).startswith(vname)]
                 inside = 0
                 for lid in lam_ids:
                     for h in F.by_lid.get(lid, []):
-                        inside += len([1 for tgt, kind, site in writes_in(h, h.body) if pp(tgt).startswith(g["qn"].split("::")[-1])])
+                        inside += len([1 for tgt, kind, site in writes_in(h, h.body) if pp(tgt).startswith(vname)])
                 ok = bool(once) and not outside and inside > 0
                 why = "static `%s` is modified outside std::call_once: %s" % (g["qn"], outside[:2]) if outside else "static `%s` is not initialised under std::call_once" % g["qn"]
         R.check(ok, "R-C18-2", inst, where, "populated only inside std::call_once", why)
